@@ -887,6 +887,59 @@ def gen_solicit6(rng, n):
     return cases
 
 
+def gen_multipool(rng):
+    """deterministic block (audit round 3): profiles with several pools that differ in every parameter, where the offered / allocated
+    address lies in the 2nd or 3rd pool — the parameters of the pool that CONTAINS the address must be used, not the first pool's"""
+    cases = []
+    m = lambda b: hx(bytes(10) + b"\xff\xff" + bytes(b))
+    def p4(cidr, ip, mask, gw, opts):
+        g = _s(gw) + "/" + m([int(x) for x in gw.split(".")])
+        o = ["%d,%s,%s/%s" % (t, _s(""), _s(v), hx(v.encode())) for t, v in opts]
+        return [_s(cidr) + "/" + hx(bytes(ip)) + ":" + hx(bytes(mask)), g, str(len(o))] + o
+    A = p4("192.168.1.0/30", [192, 168, 1, 0], [255, 255, 255, 252], "192.168.1.1", [(66, "first.example")])
+    B = p4("10.0.0.0/24", [10, 0, 0, 0], [255, 255, 255, 0], "10.0.0.254", [(66, "second.example"), (67, "bootB")])
+    C = p4("10.0.1.128/25", [10, 0, 1, 128], [255, 255, 255, 128], "10.0.1.129", [(150, "third")])
+    E31 = p4("10.9.9.0/31", [10, 9, 9, 0], [255, 255, 255, 254], "10.9.9.0", [(66, "exhausted31")])
+    E32 = p4("10.9.9.8/32", [10, 9, 9, 8], [255, 255, 255, 255], "10.9.9.8", [(66, "exhausted32")])
+    prof_gw = _s("100.64.0.1") + "/" + m([100, 64, 0, 1])
+    sid_none = _s("") + "/nil"
+    dns = [_s("8.8.8.8") + "/" + m([8, 8, 8, 8])]
+    k = 0
+    for unn in (0, 1):
+        for lease in (0, 600):
+            # address given, lying in the 2nd / 3rd pool
+            for pools, y in (([A, B, C], [10, 0, 0, 7]), ([A, B, C], [10, 0, 1, 200]), ([B, C, A], [192, 168, 1, 2]), ([C, A, B], [10, 0, 0, 99]),
+                             ([A, C], [10, 0, 1, 130]), ([A, B], [10, 0, 0, 1])):
+                flat = [x for pl in pools for x in pl]
+                k += 1
+                cases.append(" ".join(["resolve4", str(1000 + k), "nil", "0a1b2c3d4e5f", "5", hx(bytes(y)), "nil", "nil", "0", prof_gw, sid_none,
+                                       str(unn), str(lease), "1"] + dns + [str(len(pools))] + flat))
+            # allocation branch: the first pool(s) cannot serve an address, the registry must fall through to a later pool
+            for pools in ([E31, B], [E32, C], [E31, E32, B], [E32, E31, C, A]):
+                flat = [x for pl in pools for x in pl]
+                k += 1
+                cases.append(" ".join(["resolve4", str(2000 + k), "nil", "0a1b2c3d4e5f", "2", "alloc", "nil", "nil", "0", prof_gw, sid_none,
+                                       str(unn), str(lease), "1"] + dns + [str(len(pools))] + flat))
+    # DHCPv6 twin: IANA and PD pools with different lifetimes / options, address and prefix in the 2nd / 3rd pool
+    def c6(cidr, ip, mask):
+        return _s(cidr) + "/" + hx(ip) + ":" + hx(mask)
+    ia1 = [c6("2001:db8:1::/48", bytes.fromhex("20010db80001") + bytes(10), b"\xff" * 6 + bytes(10)), "100", "200", "1", "24,%s,%s/%s" % (_s(""), _s("one"), hx(b"one"))]
+    ia2 = [c6("fd00::/8", bytes.fromhex("fd") + bytes(15), b"\xff" + bytes(15)), "300", "0", "1", "24,%s,%s/%s" % (_s(""), _s("two"), hx(b"two"))]
+    ia3 = [c6("2001:db8::/64", bytes.fromhex("20010db8") + bytes(12), b"\xff" * 8 + bytes(8)), "0", "900", "0"]
+    pd1 = [c6("2001:db8:1::/48", bytes.fromhex("20010db80001") + bytes(10), b"\xff" * 6 + bytes(10)), "111", "222"]
+    pd2 = [c6("fd00::/8", bytes.fromhex("fd") + bytes(15), b"\xff" + bytes(15)), "0", "444"]
+    cmsg = bytes([1, 9, 8, 7]) + o6(1, bytes(range(14))) + o6(3, struct.pack(">I", 42) + bytes(8)) + o6(25, struct.pack(">I", 43) + bytes(8))
+    creq = bytes([3, 9, 8, 6]) + cmsg[4:]
+    for msg in (cmsg, creq):
+        for ias, addr in (([ia1, ia2, ia3], bytes.fromhex("fd00") + bytes(13) + b"\x09"), ([ia1, ia2, ia3], bytes.fromhex("20010db8") + bytes(11) + b"\x05"),
+                          ([ia3, ia1], bytes.fromhex("20010db80001") + bytes(9) + b"\x07"), ([ia2, ia3, ia1], bytes.fromhex("20010db80001") + bytes(9) + b"\x08")):
+            for pds, pfx in (([pd1, pd2], bytes.fromhex("fd00aa") + bytes(13)), ([pd2, pd1], bytes.fromhex("20010db8000100ab") + bytes(8))):
+                for ppref, pvalid in (("0", "0"), ("5000", "6000")):
+                    cases.append(" ".join(["solicit6", "000300010a0b0c0d0e0f", hx(msg), hx(addr), hx(pfx), "56", "0", ppref, pvalid, "0", str(len(ias))] +
+                                          [x for pl in ias for x in pl] + [str(len(pds))] + [x for pl in pds for x in pl]))
+    return cases
+
+
 def gen_resp6(rng, n):
     """plugins/dhcp6/local buildResponse: resolved address / prefix / DNS / raw options -> ADVERTISE / REPLY"""
     cases = []
@@ -964,6 +1017,7 @@ def gen_cases(rng, tier, budget):
     cases += gen_resp6(rng, 400 * k)
     cases += gen_resolve4(rng, 500 * k)
     cases += gen_solicit6(rng, 500 * k)
+    cases += gen_multipool(rng)
     return cases
 
 
@@ -1208,6 +1262,23 @@ def distribution(cases, impl):
             inc("resolve4_frame" if len(fr) > 100 else "resolve4_" + fr[:12])
             if t[5] == "alloc":
                 inc("resolve4_allocation_branch" + ("_noresolve" if o == "noresolve" else ""))
+            # does the pool that contains the (given or allocated) address differ from the first pool of the profile?
+            ytok = None
+            for x in hsum.split():
+                if x.startswith("y="):
+                    ytok = x[2:]
+            nets = [x.split("/")[1] for x in t if "/" in x and ":" in x.split("/")[-1]]
+            if ytok and ytok != "nil" and len(nets) >= 2:
+                yb = bytes.fromhex(ytok)
+                yb = yb[12:] if len(yb) == 16 and yb[:12] == bytes(10) + b"\xff\xff" else yb
+                hit = None
+                for i_, nm in enumerate(nets):
+                    ipb, mb = [bytes.fromhex(z) for z in nm.split(":")]
+                    if len(ipb) == len(yb) == len(mb) and all((a & c) == (b & c) for a, b, c in zip(ipb, yb, mb)):
+                        hit = i_
+                        break
+                if hit is not None and hit > 0:
+                    inc("resolve4_containing_pool_is_not_first" + ("_alloc" if t[5] == "alloc" else ""))
             if "nr=1" in hsum:
                 inc("resolve4_unnumbered_default_route")
             if "opts=-" not in hsum:
